@@ -1485,6 +1485,36 @@ def check_C16(ctx):
         for cmd in ("stats", "csv-log", "reg"):
             c = dict(files=f0, cmd=cmd, f_today=bad, **NOCOLOR)
             cases.append(c); expect.append(("today", None, "unreadable", lambda i: (i["status"].startswith("fail"), "a --today value that is not a date in the effective format is an error")))
+    # the configuration file as TEXT (the model parses the same bytes, Model/Config.v): layout variants of a valid file must all load the same values,
+    # files with an unknown section / variable, a bad number or date, broken brackets are errors; texts outside the modelled subset need a clean exit only
+    def cfg_text(entries, rr):
+        lines = []
+        def blanks(): return rr.choice(["", "", " ", "\t", "  "])
+        def case(x): return rr.choice([x, x, x.lower(), x.upper()])
+        for sect, kvs in entries:
+            if rr.random() < 0.3: lines.append(rr.choice(["; a comment", "# another", "", "  ; indented"]))
+            lines.append(blanks() + "[" + case(sect) + "]" + blanks())
+            for k2, v in kvs:
+                if rr.random() < 0.2: lines.append(rr.choice(["", "; " + k2 + " = commented out", "#x"]))
+                lines.append(blanks() + case(k2) + blanks() + "=" + blanks() + v + blanks())
+        return ("\n".join(lines) + "\n").encode()
+    for k in range(ctx.scale(80, 1500)):
+        logname = r.choice(["alt.yaml", "my log.yaml", "храна.yaml", "a=b.yaml"])
+        files = {"food.yaml": b"", "log.yaml": logf("from_default"), logname: logf("from_cfg")}
+        kind = r.random()
+        ent = [("Global", [("LogFileName", logname)] + ([("DateFormat", "2006/01/02")] if r.random() < 0.3 else [])), ("Resolver", [("MaxDepth", str(r.randint(1, 30)))] if r.random() < 0.5 else [])]
+        if kind < 0.55: txt = cfg_text(ent, r); expect_chk = lambda i: (b"from_cfg" in i["stdout"], "a configuration file in any layout (comments, blank lines, blanks around '=', letter case of names) sets the log file")
+        elif kind < 0.9:
+            bad = r.choice([[("Global", [("LogFile", logname)])], [("Globals", [("LogFileName", logname)])], [("Resolver", [("MaxDepth", "ten")])], [("Global", [("Now", "yesterday")])],
+                            [("Global", [("LogFileName", logname)]), ("Resolver", [("MaxDepth", "1.5")])], [("Resolver", [("Depth", "3")])]])
+            txt = cfg_text(bad, r); expect_chk = lambda i: (i["status"].startswith("fail"), "a configuration file with an unknown section or variable, or a value its field cannot hold, is an error")
+            if r.random() < 0.3: txt = b"[Global\nLogFileName=" + logname.encode() + b"\n"
+        else:
+            txt = cfg_text(ent, r).replace(logname.encode(), b'"' + logname.encode() + b'"'); expect_chk = None      # quoted value: outside the modelled subset
+        files["t.cfg"] = txt
+        c = dict(files=files, cmd="csv-log", **NOCOLOR); c[r.choice(["f_config", "e_config"])] = "t.cfg"
+        cases.append(c); expect.append(("config-text", None, "text", expect_chk) if expect_chk else None)
+        ctx.nontriv(txt); ctx.tally("config_text", "valid layout" if kind < 0.55 else "error" if kind < 0.9 else "outside the subset")
     # --no-database = an empty book, whatever -d / HR_DATABASE / the config say and whether or not food.yaml exists
     nd_pairs = []
     for k in range(ctx.scale(12, 200)):
